@@ -85,6 +85,7 @@ class World:
         self.proto = proto
         spa._protocol = proto
         self.sent = []
+        self.lost = []
         proto.connection_made(FakeDatagramTransport(self.loop, proto, self._on_send))
         self.partial = GeckoAsyncPartialStatusBlockProtocolHandler(
             proto, async_on_handled=spa._async_on_partial_status_update)
@@ -117,6 +118,10 @@ class World:
         content = data[off:-16]
         verb = content[:5]
         verb = verb.concrete() if hasattr(verb, "concrete") else bytes(verb)
+        if getattr(self, "deaf", False):
+            # the spa is unreachable: the command is lost, nothing is applied, nothing comes back
+            self.lost.append((verb, content, data))
+            return
         self.sent.append((verb, content, data))
         if verb == b"SPACK":
             self.proto.datagram_received(b"PACKS", PARMS)
@@ -191,6 +196,15 @@ def switch_cmd(plat, c, l, base, async_):
         want_on = bool(sx.choice("turn_on", 2))
         was_on = bool(d.is_on)
         if async_:
+            if sx.choice("first_command_unanswered", 2):
+                # every transmission of the first command is lost: the spa's state is what it was, so the client
+                # must still see the old state and the repeated command must be sent like the first (round 7)
+                w.deaf = True
+                w.run(d.async_turn_on() if want_on else d.async_turn_off())
+                w.deaf = False
+                sx.check(bool(d.is_on) == was_on, "cmd.switch.unanswered-command-leaves-the-reported-state",
+                         lambda: f"was_on={was_on} lost={len(w.lost)}")
+                sx.check((len(w.lost) == 0) == (was_on == want_on), "cmd.switch.unanswered-command-was-transmitted")
             w.run(d.async_turn_on() if want_on else d.async_turn_off())
         else:
             # threaded twin: the calls reach the spa object synchronously
